@@ -37,7 +37,9 @@ CLAIMS = {
         text='Lean 4 theorems: Clayton/Gumbel tau<->theta round trips on the generated compute_theta, acceptance iff '
              'admissible for each family, refusals leave no usable model, accepted fits are usable, state written at each '
              'refusal point, Frank residual = tau(theta)-tau, tau-b bounds/symmetry/monotone data/invariance on an '
-             'executable tau-b; tied by running the fit model at Float on the quantities the real fit derives from data.',
+             'executable tau-b; Props/C10b: the generator integral 1 + 4*int_0^1 phi/phi\' equals the calibration for all three '
+             'families (interval integrals, no external hypothesis for Clayton/Gumbel); tied by running the fit model at Float '
+             'on the quantities the real fit derives from data.',
         note='Frank solver (least_squares, quad) and scipy kendalltau are external hypotheses, cross-checked every run; '
              'Frank near tau=0 is a recorded finding',
         tech='Lean 4 proof over generated calibrations + hand model of fit with correspondence', ref='5 C10'),
@@ -150,8 +152,9 @@ CLAIMS = {
              'sound decidable regular-vine checker; admissible theta from the generated tables; tied by replaying the real '
              'choices through the model (acceptors where Python tie-breaking is unspecified) and running the checker on every '
              'real fitted vine.',
-        note='maximum-spanning-tree optimality (exchange argument) and pairs-once for arbitrary regular vines are partial: the '
-             'sound checker and a Kruskal weight comparison run on every real vine instead; NaN behaviour of argmax/sorted not modelled',
+        note='Props/C16b proves maximum-spanning-tree optimality of the Prim growth (exchange argument) and pairs-once for '
+             'every regular vine the model can build; the sound checker and a Kruskal weight comparison still run on every real '
+             'vine; NaN behaviour of argmax/sorted not modelled',
         tech='Lean 4 proof over a hand-written vine-construction model with refinement acceptors + structural correspondence',
         ref='5 C16'),
     'C20': dict(
@@ -173,7 +176,8 @@ CLAIMS = {
              'wrapper delegates; KDE CDF (any CDF-like Phi, weights, bandwidth, data): monotone, <= 1, exactly 0 at the lower '
              'bound, >= -deficit with the deficit bounded by Phi(-5 sigma/h), limits, derivative = kernel density; '
              'percent_point pre-processing (range error, +-inf mapping), residual signs at the bracket, root existence (IVT), '
-             'monotonicity; tied by translation validation (own erfc-based Phi, 1e-14) and bitwise forwarding checks.',
+             'monotonicity; Props/C03b instantiates Phi with the true normal CDF (Mathlib gaussianReal) and bounds the deficit '
+             'below 3.9e-6; tied by translation validation (own erfc-based Phi, 1e-14) and bitwise forwarding checks.',
         note='scipy family coherence is a hypothesis structure validated on a grid each run; the KDE range clause holds only up '
              'to the truncation deficit (stated exactly); the upper-bracket clause is false near 1 (recorded finding)',
         tech='Lean 4 proof over translator-regenerated definitions + translation validation at Float', ref='5 C03'),
